@@ -59,6 +59,40 @@ CORPUS = [
             "                sink2(i, i / 4)\n"
         ),
     },
+    {   # loop bound (i + 3) % 4 with i in [0, 3): the range [3, 5] straddles a multiple of 4, so the bound is [0, 3],
+        # not [3 % 4, 5 % 4]; the inner j / 2 and j % 2 must stay
+        "name": "mod-range-straddles-multiple",
+        "src": (
+            "@proc\n"
+            "def sink2(a: index, b: index):\n"
+            "    pass\n"
+            "\n"
+            "@proc\n"
+            "def p(x: R[3, 3], y: R[3], z: R[3]):\n"
+            "    for i in seq(0, 3):\n"
+            "        for j in seq(0, (i + 3) % 4):\n"
+            "            y[j % 2] += x[i, j]\n"
+            "            z[j / 2] += x[i, j]\n"
+            "            sink2(j % 2, j / 2)\n"
+        ),
+    },
+    {   # bounds that are / and % of outer iterators and sizes, lower bound non-zero
+        "name": "divmod-loop-bounds",
+        "src": (
+            "@proc\n"
+            "def sink2(a: index, b: index):\n"
+            "    pass\n"
+            "\n"
+            "@proc\n"
+            "def p(n: size, x: R[64]):\n"
+            "    for i in seq(2, 7):\n"
+            "        for j in seq(i / 2, i / 2 + (2 * i + 5) % 8):\n"
+            "            sink2(j % 4, j / 4)\n"
+            "            x[(8 * (j / 3) + j % 3) % 64] = 1.0\n"
+            "        for q in seq(i % 2, i % 2 + (i + n) % 3):\n"
+            "            sink2(q % 2, (q + i) / 3)\n"
+        ),
+    },
     {   # R-typed constant quotient must fold as real division
         "name": "real-constant-division",
         "src": (
